@@ -70,6 +70,9 @@ impl<'a, T: Read + Write + Seek> PointCloudWriter<'a, T> {
 
         // Calculate max number of points per packet
         let max_points_per_packet = get_max_packet_points(&prototype);
+        if max_points_per_packet == 0 {
+            Error::invalid("The prototype is too big, a single point does not fit into a data packet")?
+        }
 
         // Prepare byte stream buffers
         let byte_streams = vec![ByteStreamWriteBuffer::new(); prototype.len()];
@@ -769,5 +772,10 @@ fn get_max_packet_points(prototype: &[Record]) -> usize {
         // so there will be no data packets and any limit works.
         return u16_max;
     }
-    ((u16_max - headers_size - max_incomplete_bytes - SAFETY_MARGIN) * 8) / point_size_bits
+    let reserved = headers_size + max_incomplete_bytes + SAFETY_MARGIN;
+    if reserved >= u16_max {
+        // The headers alone do not fit into a packet
+        return 0;
+    }
+    ((u16_max - reserved) * 8) / point_size_bits
 }
